@@ -11,3 +11,18 @@ func VerifCalculateDelay(dr *DatabaseRecovery, attempt int) time.Duration {
 
 // VerifShouldRetry exposes the retry classification.
 func VerifShouldRetry(dr *DatabaseRecovery, err error) bool { return dr.shouldRetry(err) }
+
+// VerifBuiltins returns the command lines of the two built-in fallback databases (embedded, minimal).
+func VerifBuiltins(dr *DatabaseRecovery) (embedded, minimal []string) {
+	if db, err := dr.loadEmbeddedDatabase(); err == nil && db != nil {
+		for i := range db.Commands {
+			embedded = append(embedded, db.Commands[i].Command)
+		}
+	}
+	if db, err := dr.createMinimalDatabase(); err == nil && db != nil {
+		for i := range db.Commands {
+			minimal = append(minimal, db.Commands[i].Command)
+		}
+	}
+	return embedded, minimal
+}
